@@ -226,6 +226,63 @@ def run(run_, tlc_result, fault_shapes_per_proc, procs=16):
     return list(events.values()), c11
 
 
+def _large_fault(args):
+    case, seed, workdir, n = args
+    os.makedirs(workdir, exist_ok=True)
+    faults.install_audit()
+    fev, ftr, fb, fa, _ = faults.run_case(case, workdir, seed, fault_at=n)
+    return n, {k: v for k, v in fev.items() if k not in ("doc", "audit")}
+
+
+def large_document_events(run_, n_art, points, procs=16, procs_list=("repodata", "cli_sign")):
+    """Scale: repodata with thousands of artifacts.  The fault-free run, late-discovered malformed input, and an exception injected at
+    sampled line events over the whole run (dense near the end).  Events are reported over a small abstract document: what is judged
+    here is only whether the target was touched / changed by a run that did not complete."""
+    root = os.path.join(run_.scratch, "inplace-large")
+    os.makedirs(root, exist_ok=True)
+    small = {"pk": ["a1", "a2", "a3"], "cd": ["c1"], "meta": {a: "m1" for a in faults.ART_NAMES + faults.CONDA_NAMES}, "pre": "absent", "extra": False}
+    events = []
+    lib.cct("signing"), lib.cct("cli")
+    for proc in procs_list:
+        pk = ["a%d" % i for i in range(1, n_art + 1)]
+        cd = ["c%d" % i for i in range(1, 41)]
+        doc = {"pk": pk, "cd": cd, "meta": {a: "m%d" % (i % 5) for i, a in enumerate(pk + cd)}, "pre": "absent", "extra": False, "tiny": True}
+        for inp in ("ok", "conda_not_object"):
+            case = {"proc": proc, "input": inp, "doc": doc}
+            ev, tr, before, after, ctx = faults.run_case(case, root, run_.seed, record=False)
+            run_.evaluations += 1
+            ev["result"] = {"names": small["pk"] + small["cd"], "metas": ["m1"] * 4} if ev["completed"] else {"names": [], "metas": []}
+            ev["doc"] = small
+            ev.pop("audit", None)
+            events.append([ev, 1, {"case": {"proc": proc, "input": inp, "artifacts": n_art + 40}, "fault_at": None, "outcome": ev["outcome"]}])
+            if inp != "ok" or not ev["completed"]:
+                continue
+            total = tr.n
+            pts = sorted({max(1, total * i // points) for i in range(1, points + 1)} | set(range(max(1, total - 12), total + 1)))
+            jobs = [(case, run_.seed, os.path.join(root, "w%d" % (i % procs)), n) for i, n in enumerate(pts)]
+            # one worker per directory at a time: chunk the jobs by directory
+            by_dir = {}
+            for j in jobs:
+                by_dir.setdefault(j[2], []).append(j)
+            with mp.get_context("fork").Pool(min(procs, len(by_dir))) as pool:
+                for res in pool.imap_unordered(_large_fault_batch, list(by_dir.values())):
+                    for n, fev in res:
+                        run_.evaluations += 1
+                        run_.extra["fault_sites"] = run_.extra.get("fault_sites", 0) + 1
+                        fev["result"] = {"names": [], "metas": []}
+                        fev["doc"] = small
+                        if not fev["injected"]:
+                            fev["site"] = "none"
+                        events.append([fev, 1, {"case": {"proc": proc, "input": inp, "artifacts": n_art + 40}, "fault_at": n, "of_line_events": total,
+                                                "outcome": fev["outcome"]}])
+    run_.extra["large_document_artifacts"] = n_art + 40
+    return events
+
+
+def _large_fault_batch(jobs):
+    return [_large_fault(j) for j in jobs]
+
+
 def _init_worker(root):
     d = os.path.join(root, "w%d" % os.getpid())
     os.makedirs(d, exist_ok=True)
